@@ -4,6 +4,7 @@ CONSTANTS
   FocusGroups <- BuildGroups
   Modes <- BothModes
   MaxWeight = 3
+  RouteWeight = 0
   MaxBuilds = 10
   KeyVariant = "ideal"
 VIEW GenView
